@@ -567,7 +567,54 @@ def check_2d_rewrite(ctx, R="C06.heading2d"):
         ctx.finding(R, fn, "heading rewrite name", f"OrientedPoint2D._prepareSpecifiers tests {lits}, but veneer.With names the specifier `{produced}`: `with heading` is no longer rewritten to `facing`")
 
 
+def check_default_deps(ctx, R="C06.defaults"):
+    ctx.rule(
+        R,
+        "dependencies of class defaults: PropertyDefault.resolveFor declares for an ordinary (non-additive) default exactly the properties "
+        "its own value reads (self.requiredProperties) -- never those of the superclass defaults it overrides, which are not evaluated and "
+        "would create spurious dependency cycles; an additive default, which evaluates every overridden default too, declares the union",
+    )
+    model = ctx.model
+    fn = model.func("scenic.core.specifiers", "PropertyDefault.resolveFor")
+    ovp = fn.args.args[2].arg
+    calls = [c for c in walk_local(fn) if isinstance(c, ast.Call) and dotted(c.func) == "DelayedArgument" and len(c.args) >= 2]
+    ctx.floor(R, len(calls), 2, "DelayedArgument constructions in resolveFor")
+    for c in calls:
+        deps, helper = c.args[0], c.args[1]
+        if lib.role_text(fn, helper) == "self.value":
+            d = lib.role_text(fn, deps)
+            if d in ("self.requiredProperties", "set(self.requiredProperties)", "frozenset(self.requiredProperties)"):
+                ctx.ok(R, c, "an ordinary default depends on what its own value reads")
+            else:
+                extra = isinstance(deps, ast.Name) and any(isinstance(a, ast.AugAssign) and isinstance(a.target, ast.Name) and a.target.id == deps.id for a in walk_local(fn))
+                ctx.finding(
+                    R,
+                    c,
+                    "ordinary default over-declares dependencies",
+                    f"PropertyDefault.resolveFor evaluates only `self.value` for a non-additive default but declares the dependencies `{unparse(deps)}`"
+                    + (" (which accumulates the dependencies of the overridden defaults)" if extra else "")
+                    + ": a subclass default inherits the `self.` dependencies of the defaults it replaces, so legal acyclic programs raise a cyclic-dependency error",
+                )
+        else:
+            # additive: the accumulator must start from self's and add every overridden default's requirements
+            acc = deps.id if isinstance(deps, ast.Name) else None
+            starts = acc is not None and any(isinstance(a, ast.Assign) and unparse(a.targets[0]) == acc and "self.requiredProperties" in unparse(a.value) for a in walk_local(fn))
+            adds = acc is not None and any(
+                isinstance(a, ast.AugAssign)
+                and isinstance(a.op, ast.BitOr)
+                and unparse(a.target) == acc
+                and unparse(a.value).endswith(".requiredProperties")
+                and any(isinstance(l, ast.For) and unparse(l.iter) == ovp for l in lib.ancestors(a))
+                for a in walk_local(fn)
+            )
+            if starts and adds:
+                ctx.ok(R, c, "an additive default depends on its own and on every overridden default's requirements")
+            else:
+                ctx.finding(R, c, "additive default dependencies", f"the additive default's dependencies `{unparse(deps)}` are not the union of self.requiredProperties and every overridden default's requiredProperties")
+
+
 def check(ctx):
+    check_default_deps(ctx)
     check_docs_table(ctx)
     check_deps_cover(ctx)
     check_errors(ctx)
